@@ -15,7 +15,7 @@ package packageonly
 //@ pure func methBad(pass *analysis.Pass, ann *annotations.PackageAnnotations, p string, t string, m string) bool = p != pass.Pkg.Path() && (exists x string :: poMethDeclared(pass, ann, p, t, m, x)) && !poMethDeclared(pass, ann, p, t, m, pass.Pkg.Path()) && !poMethDeclared(pass, ann, p, t, m, pass.Pkg.Name())
 
 //@ func findFunctionViolation
-//@   props C04 C17 C10 C12
+//@   props C04 C17 C10 C12 C07 C08
 //@   ghostparam packageAnnotations *annotations.PackageAnnotations
 //@   requires poCtxOK(ctx, packageAnnotations)
 //@   fresh
@@ -24,7 +24,7 @@ package packageonly
 //@   assigns nothing
 
 //@ func findMethodViolation
-//@   props C04 C17 C10 C12
+//@   props C04 C17 C10 C12 C07 C08
 //@   ghostparam packageAnnotations *annotations.PackageAnnotations
 //@   requires poCtxOK(ctx, packageAnnotations)
 //@   fresh
@@ -34,7 +34,7 @@ package packageonly
 
 // PKGO01 is reported once per file and type key: the first unsuppressed use marks the key
 //@ func findTypeViolation
-//@   props C04 C07 C17 C10 C12
+//@   props C04 C07 C17 C10 C12 C08
 //@   ghostparam packageAnnotations *annotations.PackageAnnotations
 //@   requires poCtxOK(ctx, packageAnnotations)
 //@   fresh
